@@ -1,5 +1,6 @@
 /* line-protocol driver: mptcore/config (C10).  Calls the real functions in-process.
- * The global configuration tree is process-global: one script per process (per_process = 1).
+ * The global configuration tree is process-global: `g begin` and `g end` empty it (and the private list, and drop the
+ * views), so a batch of scripts can share a process.
  *
  * trees:  '-' = global configuration through a NULL config pointer (mpt_config_set / mpt_config_getp),
  *         'r' = a private root list driven directly with mpt_node_assign / mpt_node_query,
@@ -11,6 +12,7 @@
  *   g seti <tree> <path-hex> <sep-hex>             assign an int32 (no text form: refused)
  *   g setl <tree> <prefix-hex> <n> <suffix-hex> <sep-hex> <value-hex>   path = prefix, n x 'x', suffix
  *   g has <tree> <path-hex> <sep-hex>              existence (query without handler)
+ *   g delp <tree> empty|null / g setp <tree> <value-hex> / g getp <tree>   remove, assign, query with an empty (NULL) path
  *   g view <path-hex> <sep-hex>
  *   g split <text-hex> <sep-hex> <assign-hex>      mpt_path_set + mpt_path_next until exhausted
  *   g last <text-hex> <sep-hex> <skip>             mpt_path_set, <skip> x mpt_path_next, mpt_path_last
@@ -109,14 +111,16 @@ static void add_pair(const char *path, MPT_INTERFACE(convertable) *val)
 }
 static char gfirst[1024];   /* name of the first top-level element of the global tree */
 static int gfirst_len;
-struct walk_ctx { char path[8192]; size_t len; int depth; };
+static int gnitems;           /* elements reached through the collection interface */
+struct walk_ctx { char path[8192]; size_t len; int depth; int count; };
 static int walk_item(void *ptr, const MPT_STRUCT(identifier) *id, MPT_INTERFACE(convertable) *val, const MPT_INTERFACE(collection) *sub)
 {
 	struct walk_ctx *c = ptr;
 	size_t old = c->len;
 	const char *nm = name_hex(id);
 	size_t n = strlen(nm);
-	if (!c->depth && gfirst_len < 0 && id->_len && id->_len < sizeof(gfirst)) {
+	if (c->count) ++gnitems;
+	if (c->count && !c->depth && gfirst_len < 0 && id->_len && id->_len < sizeof(gfirst)) {
 		const char *d = mpt_identifier_data(id);
 		if (d && !d[id->_len - 1] && strlen(d) == (size_t) id->_len - 1) {
 			memcpy(gfirst, d, id->_len);
@@ -184,14 +188,24 @@ static void walk_nodes(MPT_STRUCT(node) *n, MPT_STRUCT(node) *parent, struct wal
 /* link check of the global tree (C14's clauses on the tree the views work on): the first top-level element is
  * looked up through a view on its name, the walk goes over the node links from the head of its list */
 static const char *gbroken;
+static const char *gunchecked;
+#define MAXSEEN 8192
+static MPT_STRUCT(node) *gseen[MAXSEEN];
+static int gnseen;            /* nodes reached over the links */
 static void check_links(MPT_STRUCT(node) *n, MPT_STRUCT(node) *parent, int depth)
 {
 	MPT_STRUCT(node) *prev = 0;
-	int guard = 0;
-	for (; n && guard++ < 100000; prev = n, n = n->next) {
+	for (; n; prev = n, n = n->next) {
+		int i;
+		/* a node reached a second time: cycle, or reachable from two places */
+		for (i = 0; i < gnseen; i++) if (gseen[i] == n) { gbroken = "reached-twice"; return; }
+		if (gnseen >= MAXSEEN) { gunchecked = "too-many-nodes"; return; }
+		gseen[gnseen++] = n;
 		if (n->prev != prev) gbroken = "prev-mismatch";
 		if (n->parent != parent) gbroken = "parent-mismatch";
-		if (depth < 200) check_links(n->children, n, depth + 1);
+		if (depth > 4000) { gunchecked = "too-deep"; return; }
+		check_links(n->children, n, depth + 1);
+		if (gbroken && !strcmp(gbroken, "reached-twice")) return;
 	}
 }
 static void check_global(void)
@@ -200,21 +214,25 @@ static void check_global(void)
 	MPT_INTERFACE(metatype) *mt;
 	MPT_STRUCT(node) *n = 0;
 	int used[256], i, sepc = 0;
-	gbroken = 0;
-	if (gfirst_len < 0) return;
+	gbroken = 0; gunchecked = 0; gnseen = 0;
+	if (!gnitems) return;                      /* empty tree: nothing to check */
+	if (gfirst_len < 0) { gunchecked = "first-name-unusable"; return; }
 	memset(used, 0, sizeof(used));
 	for (i = 0; i < gfirst_len; i++) used[(uint8_t) gfirst[i]] = 1;
 	for (i = 1; i < 256; i++) if (!used[i]) { sepc = i; break; }
-	if (!sepc) return;
+	if (!sepc) { gunchecked = "no-free-separator"; return; }
 	p.sep = sepc; p.assign = 0;
 	mpt_path_set(&p, gfirst, -1);
-	if (!(mt = mpt_config_global(&p))) return;
+	if (!(mt = mpt_config_global(&p))) { gunchecked = "no-view"; return; }
 	if (MPT_metatype_convert(mt, MPT_ENUM(TypeNodePtr), &n) < 0) n = 0;
 	mt->_vptr->unref(mt);
 	if (!n) { gbroken = "top-not-found"; return; }
 	if (n->parent) gbroken = "top-has-parent";
 	for (i = 0; n->prev && i < 100000; i++) n = n->prev;
+	if (n->prev) { gbroken = "prev-cycle"; return; }
 	check_links(n, 0, 0);
+	/* every element the collection interface shows is reached over the links exactly once, and nothing else */
+	if (!gbroken && !gunchecked && gnseen != gnitems) gbroken = "reachable-count-differs";
 }
 static int cmp_str(const void *a, const void *b)
 {
@@ -238,13 +256,14 @@ static void result(const char *verdict, const char *ret)
 	printf("R %s | C G[", verdict);
 	c.len = 0; c.path[0] = 0; c.depth = 0;
 	dumplen = 0; dump[0] = 0;
-	gfirst_len = -1;
+	gfirst_len = -1; gnitems = 0; c.count = 1;
 	mpt_config_query(0, &p, walk_top, &c);
 	check_global();
 	if (gbroken) printf("BROKEN:%s ", gbroken);
+	if (gunchecked) printf("UNCHECKED:%s ", gunchecked);
 	put_pairs();
 	fputs("]P[", stdout);
-	c.len = 0; c.path[0] = 0; c.depth = 0;
+	c.len = 0; c.path[0] = 0; c.depth = 0; c.count = 0;
 	dump_s("|");
 	pbroken = 0;
 	walk_nodes(root, 0, &c);
@@ -323,6 +342,18 @@ int main(void)
 		if (drv_nw < 2 || strcmp(drv_w[0], "g")) { puts("bad-op"); continue; }
 		op = drv_w[1];
 		if (!strcmp(op, "begin") && drv_nw == 2) {
+			/* several scripts may share a process: start from nothing */
+			int i;
+			MPT_STRUCT(node) tmp = MPT_NODE_INIT;
+			for (i = 0; i < nviews; i++) views[i]->_vptr->unref(views[i]);
+			nviews = 0;
+			if ((tmp.children = root)) {
+				MPT_STRUCT(node) *n;
+				for (n = root; n; n = n->next) n->parent = &tmp;
+				mpt_node_clear(&tmp);
+				root = 0;
+			}
+			mpt_config_set(0, 0, 0, '.', 0);
 			result("ok", "0");
 		}
 		else if ((!strcmp(op, "set") && drv_nw == 6) || (!strcmp(op, "seti") && drv_nw == 5) || (!strcmp(op, "setl") && drv_nw == 8)) {
@@ -373,6 +404,42 @@ int main(void)
 			}
 			free(ptxt); free(vtxt);
 		}
+		else if ((!strcmp(op, "delp") && drv_nw == 4) || (!strcmp(op, "setp") && drv_nw == 4) || (!strcmp(op, "getp") && drv_nw == 3)) {
+			/* the empty-path forms of the config interface: g delp <tree> empty|null, g setp <tree> <value-hex>,
+			 * g getp <tree> (value of the view's base / nothing on the global object) */
+			MPT_STRUCT(path) p = MPT_PATH_INIT;
+			cfg = get_tree(drv_w[2], &kind);
+			if (kind < 0 || kind == 1) { puts("bad-op"); continue; }
+			if (!cfg) {
+				static MPT_INTERFACE(metatype) *gl;
+				if (!gl) gl = mpt_config_global(0);
+				if (!gl || MPT_metatype_convert(gl, MPT_ENUM(TypeConfigPtr), &cfg) < 0 || !cfg) { puts("bad-op"); continue; }
+			}
+			if (op[0] == 'd') {
+				int isnull = !strcmp(drv_w[3], "null");
+				if (!isnull && strcmp(drv_w[3], "empty")) { puts("bad-op"); continue; }
+				r = cfg->_vptr->remove(cfg, isnull ? 0 : &p);
+				result_n(r < 0 ? "refused" : "ok", r);
+			}
+			else if (op[0] == 's') {
+				const char *v;
+				MPT_STRUCT(value) d = MPT_VALUE_INIT('s', &v);
+				if (!(vtxt = get_text(drv_w[3], &vlen))) { puts("bad-op"); continue; }
+				v = vtxt;
+				r = cfg->_vptr->assign(cfg, &p, &d);
+				result(r < 0 ? "refused" : "ok", r < 0 ? drv_errname(r) : "0");
+				free(vtxt);
+			}
+			else {
+				struct got got = { 0, 0 };
+				static char buf[4200];
+				r = cfg->_vptr->query(cfg, &p, get_value, &got);
+				if (r < 0) result("absent", drv_errname(r));
+				else if (!got.txt) result("val=null", "0");
+				else if (got.len > 2000) result("val=?long", "0");
+				else { strcpy(buf, "val="); hex_into(buf + 4, (const uint8_t *) got.txt, got.len); result(buf, "0"); }
+			}
+		}
 		else if (!strcmp(op, "has") && drv_nw == 5) {
 			/* existence only: no handler */
 			MPT_STRUCT(path) p = MPT_PATH_INIT;
@@ -409,10 +476,15 @@ int main(void)
 				else r = n->_meta ? get_value(&got, (MPT_INTERFACE(convertable) *) n->_meta, 0) : MPT_ERROR(MissingData);
 			} else {
 				r = mpt_config_query(cfg, &p, get_value, &got);
-				if (kind == 0 && r >= 0 && sep == '.' && got.txt && got.len < 200) {
-					/* the documented front end must agree (short values: text metatype) */
+				if (kind == 0 && r >= 0 && sep == '.' && got.txt) {
+					/* the documented front end mpt_config_get(.., 's', ..) must return the same text whenever it returns
+					 * one; it may only decline (BadType) for values of 250 bytes and more, which mpt_meta_new stores as a
+					 * buffer metatype that has a character-vector form only (read like mpt_convertable_data does) */
 					const char *t2 = 0;
-					if (mpt_config_get(0, ptxt, 's', &t2) < 0 || t2 != got.txt) { got.txt = "?get-differs"; got.len = 12; }
+					int r2 = mpt_config_get(0, ptxt, 's', &t2);
+					if (r2 >= 0 ? (!t2 || strlen(t2) != got.len || memcmp(t2, got.txt, got.len)) : (got.len < 250 || r2 != MPT_ERROR(BadType))) {
+						got.txt = "?get-differs"; got.len = 12;
+					}
 				}
 			}
 			if (r < 0) result("absent", drv_errname(r));
